@@ -14,6 +14,7 @@ import (
 	"google.golang.org/protobuf/proto"
 	"google.golang.org/protobuf/types/known/anypb"
 
+	"github.com/refraction-networking/conjure/internal/verifhook"
 	"github.com/refraction-networking/conjure/pkg/core"
 	"github.com/refraction-networking/conjure/pkg/phantoms"
 	"github.com/refraction-networking/conjure/pkg/station/liveness"
@@ -156,6 +157,7 @@ func (rm *RegistrationManager) ingestRegistration(reg *DecoyRegistration) {
 		}
 		return
 	}
+	verifhook.Yield("ingest:after-exists", reg)
 
 	// log phantom IP, shared secret, ipv6 support
 	logger.Debugf("New registration: %s %v\n", reg.IDString(), reg.String())
@@ -167,6 +169,7 @@ func (rm *RegistrationManager) ingestRegistration(reg *DecoyRegistration) {
 		Stat().AddErrReg()
 		rm.AddErrReg()
 	}
+	verifhook.Yield("ingest:after-track", reg)
 
 	// If registration is trying to connect to a covert address that
 	// is blocklisted consider registration INVALID and continue
@@ -190,6 +193,7 @@ func (rm *RegistrationManager) ingestRegistration(reg *DecoyRegistration) {
 	// DNS rebinding. Clients generally shouldn't be providing
 	// hostnames as coverts anyways.
 	reg.Covert = covert
+	verifhook.Yield("ingest:after-covert", reg)
 
 	// Perform liveness test IFF not done by other station or v6 (v6 should
 	// never be live)
